@@ -38,6 +38,20 @@ def mutate(r, s):
     return bytes(b).decode("utf-8", "replace")
 
 
+def growth_known(ctx, pid):
+    """known finding recursive-argument-growth: replay the witness under an address-space limit"""
+    findings, _ = load_known()
+    if not any(f.get("property") == pid and f.get("id") == "recursive-argument-growth" for f in findings):
+        return
+    w = open(os.path.join(VERIF, "corpus", "C09-growth.sv")).read()
+    c = Case("kf").add("file", hx("top.sv"), hx(w)).add("want", "text").add("run", "preprocess", hx("top.sv"))
+    lines = run_harness("api", [c], pid.lower() + "kf", timeout=120, mem_kb=1200000).get("kf") or []
+    if not any(l.startswith("err ") or l == "ok" for l in lines):
+        ctx.known_printed.append("recursive-argument-growth")
+    else:
+        ctx.notes.append("known finding recursive-argument-growth no longer reproduces: %s" % lines[:2])
+
+
 def check(ctx):
     prove(ctx, "C08")
     build_impl(ctx)
@@ -115,6 +129,33 @@ def check(ctx):
             bad = bad or ("fault", c.text(), "panic or abort on an unreadable / missing file")
         elif not err or not err[0][4:].startswith(expect):
             bad = bad or ("fault", c.text(), "expected %s..., got %s" % (expect, (err or lines)[:1]))
+    # unbounded-looking recursion: every cycle through `include and macro expansion must end in an error value
+    cycles = [
+        {"top.sv": '`define AGAIN `include "top.sv"\n`AGAIN\n'},
+        {"top.sv": '`include "a.svh"\n', "a.svh": '`define GO_B `include "b.svh"\n`GO_B\n', "b.svh": '`define GO_A `include "a.svh"\n`GO_A\n'},
+        {"top.sv": '`define M `include `M\n`include `M\n'},
+        {"top.sv": '`define SELF "top.sv"\n`include `SELF\n'},
+        {"top.sv": 'x\n`include "top.sv"\n'},
+        {"top.sv": '`define R `R\n`R\n'},
+        {"top.sv": '`define A `B\n`define B `include "top.sv"\n`A\n'},
+    ]
+    for j, fs in enumerate(cycles):
+        for entry in ("preprocess", "parse_sv"):
+            c = Case("y%d%s" % (j, entry))
+            for pth, t in fs.items():
+                c.add("file", hx(pth), hx(t))
+            c.add("want", "text").add("run", entry, hx("top.sv"))
+            lines = run_harness("api", [c], "c08cyc", timeout=120).get(c.id) or []
+            ctx.corr_cases += 1
+            errs = [l for l in lines if l.startswith("err ")]
+            if crashed(lines) or any(l.startswith("panic") for l in lines) or not errs:
+                bad = bad or ("fault", c.text(), "a recursive include / macro cycle does not end in an error value: %s" % (crashed(lines) or lines[:2]))
+            elif "ExceedRecursiveLimit" not in errs[0] or errs[0].count("Include(") > 66:
+                bad = bad or ("fault", c.text(), "a recursive include / macro cycle is not cut off at the recursion limit: %d Include wrappers around %s" % (
+                    errs[0].count("Include("), errs[0].replace("Include( ", "")[:60]))
+            else:
+                ctx.count("cycle_" + [x for x in [l for l in lines if l.startswith("err ")][0].split() if x not in ("err", "Include(")][0])
+    growth_known(ctx, "C08")
     ctx.sample({"grammar": srcs[40][0], "source": srcs[40][1][:120]})
     ctx.obl("search-oracle:no panic / abort in any entry point (catch_unwind), ReadUtf8 / File / Include wrapping as stated", "oracle",
             bad is None, bad[2] if bad else "")
